@@ -43,12 +43,15 @@ pub struct ReferenceValue {
     pub introduction_point: IntroductionPoint,
 }
 impl ReferenceValue {
-    /// Should never actually fail - since this was built by the type system.
-    /// This is just a sanity check, and therefore it panics instead of returning an error.
-    pub fn validate(&self, type_sizes: &TypeSizeMap) {
-        let size = *type_sizes.get(&self.ty).expect("ReferenceValue has unknown type");
+    /// The size check should never actually fail - since this was built by the type system. It is
+    /// just a sanity check, and therefore it panics instead of returning an error.
+    /// A type without a size (e.g. a struct with a non-storable member) is an error in the program.
+    pub fn validate(&self, type_sizes: &TypeSizeMap) -> Result<(), ReferencesError> {
+        let size =
+            *type_sizes.get(&self.ty).ok_or_else(|| ReferencesError::UnknownType(self.ty.clone()))?;
         let actual_size: i16 = self.expression.cells.len().into_or_panic();
         assert_eq!(actual_size, size, "ReferenceValue type size mismatch.");
+        Ok(())
     }
 }
 
